@@ -222,16 +222,29 @@ func jobC07(c *rt.Ctx) {
 			// library's signer refuses to make it): the length rule alone must keep it out
 			vsig = ref.Sign(seedOf(60), d, ref.Ph, []byte("x"))
 		}
-		for _, pos := range []int{0, 4} {
-			msgs := [][]byte{digest, digest, digest, digest, digest}
-			sigs := [][]byte{good, good, good, good, good}
+		// batch sizes 5 (one chunk), 70 (a full chunk plus a batched remainder) and 140 (two full chunks
+		// plus a batched remainder): the wrong-length digest at every chunk's first/last positions
+		type shape struct{ n, pos int }
+		shapes := []shape{{5, 0}, {5, 4}}
+		if c.Thorough() || l < 3 || (l >= 62 && l <= 66) || l == 32 || l >= 127 {
+			shapes = append(shapes, shape{70, 0}, shape{70, 5}, shape{70, 63}, shape{70, 64}, shape{70, 69}, shape{140, 64}, shape{140, 127}, shape{140, 128}, shape{140, 133}, shape{140, 139})
+		}
+		for _, sh := range shapes {
+			n, pos := sh.n, sh.pos
+			pubs := make([]PublicKey, n)
+			msgs := make([][]byte, n)
+			sigs := make([][]byte, n)
+			for i := range pubs {
+				pubs[i], msgs[i], sigs[i] = pub, digest, good
+			}
 			msgs[pos], sigs[pos] = d, vsig
 			all, valid, berr, bpv := func() (a bool, v []bool, e error, pv interface{}) {
 				defer func() { pv = recover() }()
-				a, v, e = VerifyBatch(rt.NewRng(1, "x"), []PublicKey{pub, pub, pub, pub, pub}, msgs, sigs, o)
+				a, v, e = VerifyBatch(rt.NewRng(1, "x"), pubs, msgs, sigs, o)
 				return
 			}()
-			bad := bpv != nil || berr != nil || len(valid) != 5
+			c.Step(1)
+			bad := bpv != nil || berr != nil || len(valid) != n
 			if !bad {
 				for i, v := range valid {
 					if v != (i != pos || !wantRefuse) {
@@ -241,7 +254,7 @@ func jobC07(c *rt.Ctx) {
 				bad = bad || all != !wantRefuse
 			}
 			if bad {
-				fail("VerifyBatch")
+				fail(fmt.Sprintf("VerifyBatch(n=%d)", n))
 			}
 		}
 	}
